@@ -612,6 +612,7 @@ func c01(args []string) {
 		})
 	}
 	c01backgroundJobs(c)
+	c01streamReaderStops(c)
 	c01writeFaults(c)
 	c01linkOutputs(c)
 	c.Finish()
@@ -744,7 +745,7 @@ func c01writeFaults(c *chk.Ctx) {
 // placeholders the library gave them, so both must write inside the task's temp directory; nothing may be at a final
 // path while they run, and after a failure nothing may be there at all.
 func c01backgroundJobs(c *chk.Ctx) {
-	run.Parallel(c.Pick(4, 12), func(i int) {
+	run.Parallel(c.Pick(8, 24), func(i int) {
 		root := c.CaseDir()
 		defer c.Drop(root)
 		in, o1 := []spec.PortDecl{{Name: "in"}}, []spec.PortDecl{{Name: "out"}}
@@ -762,8 +763,15 @@ func c01backgroundJobs(c *chk.Ctx) {
 			&spec.Proc{Name: "B", Kind: spec.KCmd, Cmd: spec.BuildCmd("B", in, o1, nil, nil, nil)},
 			&spec.Proc{Name: "C", Kind: spec.KCmd, Cmd: spec.BuildCmd("C", in, o1, nil, nil, nil)})
 		s.Conns = append(s.Conns, &spec.Conn{From: "src.out", To: "A.in"}, &spec.Conn{From: "A.out", To: "B.in"}, &spec.Conn{From: "A.res", To: "C.in"})
+		prepend := ""
+		if (i/4)%2 == 1 && i%3 != 2 {
+			// the same behind a Prepend wrapper (a scheduler or container prefix): it wraps the first tool only, both tools
+			// still work in the task's temp directory
+			prepend = "env BG_WRAPPED=1"
+			s.Procs[1].Prepend = prepend
+		}
 		bh := vproto.Behaviours{"A": {"probe.out": dir + "a.out", "probe.res": dir + "a.res"}, "A2": {"probe.out": dir + "a.out", "probe.res": dir + "a.res"}}
-		desc := map[string]interface{}{"spec": s, "behav": bh, "second_tool_fails": fail}
+		desc := map[string]interface{}{"spec": s, "behav": bh, "second_tool_fails": fail, "prepend": prepend}
 		res := execSpec(c, root, s, Cfg{Buf: 128, Procs: 2}, bh, false, 0)
 		if res.Hang != "" {
 			c.Inconclusive(res.Hang)
@@ -804,6 +812,50 @@ func c01backgroundJobs(c *chk.Ctx) {
 			return
 		}
 		c.Count("probe_events", len(ti.Probes))
-		c.Nontrivial(fmt.Sprintf("background|%d|%v", i%3, fail))
+		c.Nontrivial(fmt.Sprintf("background|%d|%v|%s", i%3, fail, prepend))
+	})
+}
+
+// c01streamReaderStops: a task writes a file output and a streamed output at once ("seq ... | tee {o:nums} > {os:stream}")
+// and the reader of the stream stops after a few lines (head): the writing command dies of SIGPIPE long before it has
+// written everything. It did not finish successfully, so its file output must never be at the final path - whatever
+// the library thinks of broken pipes, a partial file there is the refuting observation.
+func c01streamReaderStops(c *chk.Ctx) {
+	run.Parallel(c.Pick(3, 8), func(i int) {
+		root := c.CaseDir()
+		defer c.Drop(root)
+		n := []int{400000, 900000, 250000}[i%3]
+		dir := []string{"", "nums/"}[i%2]
+		s := &spec.Spec{Name: "readerstops", MaxTasks: 4, Sources: map[string]string{"seed.txt": "s\n"}}
+		writer := fmt.Sprintf("cat {i:in} > /dev/null; seq 1 %d | tee {o:nums} > {os:stream}", n)
+		if i%3 == 2 {
+			writer = fmt.Sprintf("cat {i:in} > /dev/null; seq 1 %d > {o:nums}; cat {o:nums} {o:nums} > {os:stream}", n) // the file is complete, the stream is not
+		}
+		s.Procs = append(s.Procs, &spec.Proc{Name: "src", Kind: spec.KFileSource, Files: []string{"seed.txt"}},
+			&spec.Proc{Name: "W", Kind: spec.KCmd, Cmd: writer, Outs: []*spec.Out{{Port: "nums", Pattern: dir + "nums.txt"}, {Port: "stream", Pattern: dir + "stream.txt"}}},
+			&spec.Proc{Name: "H", Kind: spec.KCmd, Cmd: "head -n 3 {i:in} > {o:out}", Outs: []*spec.Out{{Port: "out", Pattern: "head.txt"}}},
+			&spec.Proc{Name: "N", Kind: spec.KRecorder})
+		s.Conns = append(s.Conns, &spec.Conn{From: "src.out", To: "W.in"}, &spec.Conn{From: "W.stream", To: "H.in"}, &spec.Conn{From: "W.nums", To: "N.in"})
+		desc := map[string]interface{}{"spec": s, "lines": n}
+		res := execSpec(c, root, s, Cfg{Buf: 16, Procs: 4}, nil, false, 0)
+		if res.Hang != "" {
+			c.Inconclusive(res.Hang)
+			return
+		}
+		b, err := os.ReadFile(filepath.Join(res.Wd, dir+"nums.txt"))
+		lines := strings.Count(string(b), "\n")
+		switch {
+		case err == nil && res.Exit != 0:
+			c.Violation("final-path-without-successful-command|stream-reader-stopped", fmt.Sprintf("the writer of a stream died of SIGPIPE (its reader stopped after 3 lines), the workflow failed (exit %d), and the writer's file output is at its final path with %d of %d lines", res.Exit, lines, n), desc)
+		case err == nil && lines != n:
+			c.Violation("partial-file-at-final-path|stream-reader-stopped", fmt.Sprintf("the writer of a stream died of SIGPIPE (its reader stopped after 3 lines); its file output is at the final path with %d of %d lines (workflow exit %d)", lines, n, res.Exit), desc)
+		case err == nil:
+			// all lines are there, but the command line still ended with the status of a tool killed by SIGPIPE (tee / cat
+			// had far more to write than a pipe holds when head left)
+			c.Violation("final-path-without-successful-command|stream-reader-stopped", fmt.Sprintf("the writer of a stream died of SIGPIPE (its reader stopped after 3 lines), yet its file output is at its final path (complete, workflow exit %d)", res.Exit), desc)
+		default:
+			c.Count("stream_reader_stopped_runs", 1)
+			c.Nontrivial(fmt.Sprintf("readerstops|%d|exit%v", i, res.Exit != 0))
+		}
 	})
 }
